@@ -26,10 +26,11 @@ OutIrr(src) ==
     IN  [header |-> H, placed |-> P, ordinal |-> [t \in 1..Len(src) |-> TraceOfOrdinal(src, t)],
          il |-> AxisOf(Infer(src).il), xl |-> AxisOf(Infer(src).xl), detect |-> Detect(src).kind]
 OutWin(it) ==
-    LET W == Windowed(it.NI, it.NX, it.w)
+    LET srt == IF "srt" \in DOMAIN it THEN it.srt ELSE "il"
+        W == WindowedS(it.NI, it.NX, it.w, srt)
     IN  [ni |-> W.ni, nx |-> W.nx, il_origin |-> W.il_origin, xl_origin |-> W.xl_origin, tracecount |-> W.tracecount,
          data |-> W.data, cells |-> [k \in 1..it.narr |-> [j \in 1..(W.ni * W.nx) |-> ReadCell(W, 128, k - 1, j - 1)]],
-         ok |-> WindowOK(it.NI, it.NX, it.w, 128, it.narr)]
+         ok |-> WindowOKS(it.NI, it.NX, it.w, 128, it.narr, srt)]
 Out(it) == CASE it.op = "subsets" -> [subsets |-> Subsets(it.ni, it.nx)]
              [] it.op = "irr" -> OutIrr(it.src)
              [] it.op = "win" -> OutWin(it)
